@@ -175,6 +175,7 @@ func (array *Array) NextArray() (*Array, error) {
 func (array *Array) ReverseBy(step int) *Array {
 	ra := NewArray()
 	l := len(array.msgs)
+	l -= l % step // ignores an incomplete trailing group
 	for i := 0; i < l; i += step {
 		for j := 0; j < step; j++ {
 			idx := (l - i - 1) - (step - 1) + j
